@@ -1,0 +1,11 @@
+//go:build verif
+// +build verif
+
+package buffer
+
+// VerifState exposes the hidden state of the buffer to the verification
+// harness (read-only): the escaped-prefix mark, whether an envelope is
+// open, and the raw length and capacity of the underlying slice.
+func (b *Buffer) VerifState() (validUntil int, markerOpen bool, rawLen int, rawCap int) {
+	return b.validUntil, b.markerOpen, len(b.buf), cap(b.buf)
+}
